@@ -44,7 +44,8 @@ ASSUME = [
     "objects are those the constructors / append produce (valid_drop, same dimension within a track, radius > -1 "
     "within a time course because EmulsionTimeCourse.append copies with Emulsion.copy())",
     "tracks: no member with exactly one amplitude unless the first member has one too (no_bcast), integer times "
-    "within +-2^53 (times_exact); without them C08_dec_enc_track_refuted / C08_track_int_time_refuted apply",
+    "within +-2^53 (times_exact); without them C08_dec_enc_track_refuted / C08_track_int_time_refuted apply; "
+    "time courses: no NaN radius (C08_etc_nan_radius_refuted)",
     "times are python/numpy ints or 64-bit floats, not NaN",
     "class names are the five registered droplet classes",
 ]
@@ -298,7 +299,7 @@ def build(rec: dict):
         if rec.get("append_style"):
             obj = EmulsionTimeCourse()
             for e, t in zip(ems, rec["times"]):
-                obj.append(e, build_time(t))
+                obj.append(e, build_time(t), copy=not rec.get("nocopy"))
             return obj
         return EmulsionTimeCourse(ems, [build_time(t) for t in rec["times"]])
     return DropletTrackList([DropletTrack([build_drop(m) for m in tr["members"]],
@@ -800,6 +801,10 @@ def corpus() -> list[dict]:
          "in_domain": True},
         {"kind": "etc", "frames": [[sp], [sp, sp]], "times": [{"int": 3}, {"int": 1}], "flavour": "uniform",
          "in_domain": True, "append_style": True},
+        # a NaN radius kept in a time course by append(copy=False) (outside the domain: correspondence only)
+        {"kind": "etc", "frames": [[{"cls": "SphericalDroplet", "pos": [one, f2b(2.0)], "radius": QNAN},
+                                    {"cls": "SphericalDroplet", "pos": [one, f2b(2.0)], "radius": f2b(3.0)}]],
+         "times": [{"int": 0}], "flavour": "uniform", "in_domain": False, "append_style": True, "nocopy": True},
         {"kind": "emulsion", "members": [], "flavour": "empty", "in_domain": True},
         {"kind": "tracklist", "tracks": [{"members": [], "times": []}, {"members": [sp], "times": [{"float": f2b(.25)}]}],
          "flavour": "uniform", "in_domain": True},
